@@ -162,6 +162,56 @@ def interpreter_state():
             "numpy.printoptions": cdigest(canon({k: v for k, v in numpy.get_printoptions().items() if k != "formatter"}))}
 
 
+def library_state():
+    """Digest of module-level and class-level data of every pyvaporation module (hidden-state
+    probe; a change is not a verdict by itself, it triggers the witness calls of the lane)."""
+    import sys
+    import types
+    out = {}
+    for name in sorted(sys.modules):
+        if not (name == "pyvaporation" or name.startswith("pyvaporation.")):
+            continue
+        mod = sys.modules[name]
+        for k in sorted(vars(mod)):
+            if k.startswith("__"):
+                continue
+            v = vars(mod)[k]
+            if isinstance(v, types.ModuleType):
+                continue
+            if isinstance(v, type):
+                if getattr(v, "__module__", None) != name:
+                    continue
+                for ck in sorted(vars(v)):
+                    if ck.startswith("__"):
+                        continue
+                    cv = vars(v)[ck]
+                    if callable(cv) or isinstance(cv, (classmethod, staticmethod, property, types.MemberDescriptorType)):
+                        ci = getattr(getattr(cv, "__func__", cv), "cache_info", None)
+                        if ci is not None:
+                            out["%s.%s.%s#cache" % (name, k, ck)] = str(ci().currsize)
+                        continue
+                    try:
+                        out["%s.%s.%s" % (name, k, ck)] = cdigest(canon(cv))
+                    except Exception:
+                        out["%s.%s.%s" % (name, k, ck)] = "?"
+                continue
+            if callable(v):
+                ci = getattr(v, "cache_info", None)
+                if ci is not None:
+                    try:
+                        out["%s.%s#cache" % (name, k)] = str(ci().currsize)
+                    except Exception:
+                        pass
+                continue
+            if getattr(v, "__module__", "") == "typing":
+                continue
+            try:
+                out["%s.%s" % (name, k)] = cdigest(canon(v))
+            except Exception:
+                out["%s.%s" % (name, k)] = "?"
+    return out
+
+
 def snapshot_trees(W):
     out = {"builtin.Mixtures": canon(Mixtures), "builtin.Components": canon(Components)}
     for pool in SNAP_POOLS:
@@ -202,6 +252,7 @@ class Executor:
         self.snap0 = snapshot_trees(self.W)
         self.snap0_digests = {k: cdigest(v) for k, v in self.snap0.items()}
         self.interp0 = interpreter_state()
+        self.lib0 = library_state()
         self.last = None
 
     def describe(self):
@@ -265,7 +316,9 @@ class Executor:
                 changed.append({"item": k, "path": k, "before": "present", "after": "absent"})
         cur_i = interpreter_state()
         drift = sorted(k for k in cur_i if cur_i[k] != self.interp0.get(k))
-        return {"snapshot_changed": changed[:5], "interpreter_state_changed": drift}
+        lib = library_state()
+        libdrift = sorted(k for k in set(lib) | set(self.lib0) if lib.get(k) != self.lib0.get(k))
+        return {"snapshot_changed": changed[:5], "interpreter_state_changed": drift, "library_state_changed": libdrift[:8]}
 
     def query(self, msg):
         return {"kind": "ok"}
@@ -372,4 +425,10 @@ class Executor:
             return getattr(a["curve"], op["method"])
         if fn == "measurements_add":
             return a["left"] + a["right"]
+        if fn == "pool_measurements":
+            # what the library's own extractors do: accumulate into a fresh, empty object with +=
+            acc = Measurements(data=[])
+            for src in a["sources"]:
+                acc += src
+            return acc
         raise RuntimeError("unknown entry point %r" % (fn,))
